@@ -134,10 +134,10 @@ def run(pid: str, tier: str, seed: int, selftest=False, replay=None) -> int:
     rep.add_tlc(rg)
     n_small = 0
     for toks in seqs:
-        if "F" in toks:
+        if "F1" in toks:
             d, ok = 0, True
             for t in toks:
-                if t == "F":
+                if t == "F1":
                     d += 1
                 elif t == ")":
                     d -= 1
